@@ -126,6 +126,13 @@ class CallGraph:
                                 ct = self._class_tuple_attr(cls, parts[1])
                                 if ct:
                                     class_vars[tgt.id] = ct
+                        elif isinstance(it, ast.Call):
+                            # for x in f(...): element type from f's return annotation  Set[X] / List[X]
+                            for callee in self.targets(fi, it.func, types):
+                                if callee.node.returns is not None:
+                                    t = self._value_type(callee.module, callee.node.returns)
+                                    if t:
+                                        types[tgt.id] = [t]
                 elif isinstance(n, ast.Assign):
                     v = n.value
                     tys = None
